@@ -342,8 +342,12 @@ def build(ctx):
         v = None
         for q in (RS, BO, MU, OIL + "dgor_dpressure_Standing"):
             outs = paths(ctx, q, ARGS)
+            if len(outs) == 1:
+                # one merged term (a conditional expression): its two specialisations on p >= p_b are the sides
+                _, _, lo_, hi_ = branches(ctx, q)
+                outs = [lo_, hi_]
             if len(outs) != 2:
-                return be.Verdict(be.REFUTED, "SMT", witness={}, detail=f"{q.split(':')[1]} has {len(outs)} paths instead of the two sides of the bubble point")
+                raise sx.OutOfSubset(f"{q.split(':')[1]} has {len(outs)} paths instead of the two sides of the bubble point")
             v = paths_split_on(outs, c, {pb: pbv})
             if v.status != be.PROVED:
                 v.detail = f"{q.split(':')[1]}: " + v.detail
